@@ -40,7 +40,7 @@ Init == /\ tx = NoFn /\ flight = NoFn /\ nsent = 0 /\ err = "ok"
 \* feed one chunk record to the receiver and compare what it delivers
 \* m: message the chunk belongs to; last: this is its last chunk; size: new chunk size it announces (0 = none)
 Feed(ch, m, last, size) ==
-    LET r == Rx(rx, ch) IN
+    LET r == IF Shared THEN RxShared(rx, ch) ELSE Rx(rx, ch) IN
     IF r.err # "ok" THEN /\ err' = r.err /\ rx' = rx
     ELSE IF last /\ r.out = <<>>        THEN /\ err' = "message not delivered with its last chunk" /\ rx' = r.st
     ELSE IF ~last /\ r.out # <<>>       THEN /\ err' = "message delivered early" /\ rx' = r.st
@@ -100,7 +100,7 @@ Spec == Init /\ [][Next]_vars
 DeliveredExact == err = "ok"
 
 \* nothing is left half-reassembled at the receiver unless the sender is mid-message too
-NoOrphans == err = "ok" => DOMAIN rx.part = DOMAIN flight
+NoOrphans == (err = "ok" /\ ~Shared) => DOMAIN rx.part = DOMAIN flight
 
 \* both ends agree on the chunk size whenever no size change is in flight
 SizesAgree == (err = "ok" /\ \A c \in DOMAIN flight : flight[c].size = 0) => rx.cs = txcs
